@@ -222,6 +222,34 @@ let () = register "weave_check" (fun args ->
   | inputs :: rest -> weave_check (bytes_list_of_csv inputs) (String.concat " " rest)
   | _ -> "BADARGS")
 
+(* ---- prep / detect ---------------------------------------------------------------------------- *)
+let () = register "prep" (fun args ->
+  let recs = List.map (fun a ->
+      match String.split_on_char ':' a with
+      | [n; s] -> ((if n = "-" then [] else bytes_of_hexstr n), (if s = "-" then [] else bytes_of_hexstr s))
+      | _ -> failwith "bad prep arg") args in
+  match essential_check (with_ranks Z0 recs) with
+  | None -> "FAIL essential"
+  | Some kept ->
+    let sorted = sort_len_name kept in
+    let codes alpha amb = String.concat ";" (List.map (fun r -> hexstr_of_bytes (convert alpha amb r.r_res)) sorted) in
+    let amb a c = nthZ (z_of_int (-1)) a (z_of_int c) in
+    Printf.sprintf "OK ranks=%s dna=%s red=%s amb=%s"
+      (String.concat "," (List.map (fun r -> string_of_int (int_of_z r.r_rank)) sorted))
+      (codes alpha_defDNA (amb alpha_defDNA 78)) (codes alpha_redPROTEIN (amb alpha_redPROTEIN 88))
+      (codes alpha_ambPROTEIN (amb alpha_ambPROTEIN 88)))
+
+let () = register "detect" (fun args ->
+  let seqs = List.map (fun h -> if h = "-" then [] else bytes_of_hexstr h) args in
+  let h = histogram seqs in
+  let (sd, sp) = detect_sums h in
+  let bt = match detect_alphabet h with Some b -> string_of_int (int_of_z b) | None -> "undecided" in
+  let em = exact_margin h in
+  let sgn = match em with Z0 -> "zero" | Zpos _ -> "pos" | Zneg _ -> "neg" in
+  let tot = int_of_z (total_letters Z0 h) and po = int_of_z (class_count only_po Z0 h)
+  and uc = int_of_z (class_count only_u Z0 h) and nuc = int_of_z (class_count is_nuc_letter Z0 h) in
+  Printf.sprintf "biotype=%s dna=%s prot=%s exact=%s total=%d po=%d u=%d nuc=%d" bt (hex_of_n (bits_of_f64 sd)) (hex_of_n (bits_of_f64 sp)) sgn tot po uc nuc)
+
 let main () =
   try
     while true do
